@@ -64,7 +64,7 @@ def extract(fs="default", repo="/repo", crate="purl", pkg_args=None, out_dir=Non
     """Re-analyse `crate` from `repo`'s working tree under feature set `fs`; returns Facts."""
     drv = build_driver()
     flags = FEATURE_SETS[fs] if pkg_args is None else pkg_args
-    tag = fs if repo == "/repo" else fs + "-" + str(abs(hash(os.path.abspath(repo))) % 100000)
+    tag = fs  # registry dependencies are shared between /repo and scratch copies of it
     tdir = os.path.join(CACHE, "target-" + tag)
     os.makedirs(tdir, exist_ok=True)
     run_dir = out_dir or os.path.join(CACHE, "run", str(os.getpid()))
